@@ -4,6 +4,7 @@ package wdsim
 
 import (
 	"fmt"
+	realos "os"
 	"strings"
 
 	"github.com/emersion/go-webdav/vsim/model"
@@ -23,6 +24,7 @@ type gen struct {
 	plan       *Plan
 	names      []string
 	seq        int
+	wide       string // the wide collection of this plan's set-up, if any
 	tier       string
 	weights    []int
 	maxSize    int
@@ -194,6 +196,9 @@ func (g *gen) pickPath(kind string) string {
 		}
 		return g.pickPath("missing")
 	case "dir":
+		if g.wide != "" && t.N[g.wide] != nil && g.r.Chance(0.3) {
+			return g.wide
+		}
 		d := g.dirs()
 		if len(d) > 1 && g.r.Chance(0.9) {
 			return rt.Pick(g.r, d[1:])
@@ -203,6 +208,11 @@ func (g *gen) pickPath(kind string) string {
 		}
 		return "/"
 	case "existing":
+		if g.wide != "" && t.N[g.wide] != nil && g.r.Chance(0.3) {
+			// (its members outnumber everything else; the collection itself is
+			// what a COPY, MOVE, DELETE or listing should meet)
+			return g.wide
+		}
 		ps := t.Paths()
 		if len(ps) > 1 {
 			return rt.Pick(g.r, ps[1:])
@@ -759,10 +769,10 @@ func (g *gen) genSetup() {
 	if g.r.Chance(0.04) {
 		g.deepChain()
 	}
-	if g.r.Chance(0.03) {
+	if g.r.Chance(0.03) || realos.Getenv("VSIM_FORCE_WIDE") != "" {
 		g.wideCollection()
 	}
-	if g.r.Chance(0.05) {
+	if g.r.Chance(0.08) {
 		g.twins()
 	}
 }
@@ -775,6 +785,9 @@ func (g *gen) wideCollection() {
 	if g.r.Chance(0.08) {
 		n = rt.Pick(g.r, []int{4200, 10001, 10100})
 	}
+	if s := realos.Getenv("VSIM_FORCE_WIDE"); s != "" {
+		fmt.Sscanf(s, "%d", &n) // experiments only
+	}
 	p := g.pickPath("missing")
 	for depthOf(p) > 2 {
 		p = model.Parent(p)
@@ -784,6 +797,7 @@ func (g *gen) wideCollection() {
 	}
 	g.plan.Setup = append(g.plan.Setup, SetupOp{Mkcol: p})
 	g.j.T.Mkcol(p)
+	g.wide = p
 	sub := p
 	for i := 0; i < n; i++ {
 		if i%97 == 50 {
